@@ -63,6 +63,12 @@ pub fn check_write_pattern(sizes: &[usize], flush_between: bool, short: &str) ->
                 format!("read back {} bytes, wrote {}", got.len(), expect.len()),
             ));
         }
+        // the other read entry point of the Directory trait returns the same content
+        let h = managed.get_file_handle(path).map_err(|e| ("readback_failed".to_string(), format!("get_file_handle: {e:?}")))?;
+        let hb = h.read_bytes(0..h.len()).map_err(|e| ("readback_failed".to_string(), format!("file handle read: {e:?}")))?;
+        if hb.as_slice() != expect.as_slice() {
+            return Err(("readback_differs".to_string(), format!("get_file_handle reads back {} bytes, {} were written", hb.len(), expect.len())));
+        }
         match managed.validate_checksum(path) {
             Ok(true) => Ok(()),
             Ok(false) => Err((
@@ -163,6 +169,8 @@ pub enum Damage {
     Truncate { len: usize },
     ExtendEnd { n: usize },
     ExtendMiddle { pos: usize, n: usize },
+    /// bytes [from, to) of the body removed, the footer kept (a body truncated or shortened under its footer)
+    RemoveBody { from: usize, to: usize },
 }
 
 impl Damage {
@@ -188,6 +196,9 @@ impl Damage {
                 v.extend(std::iter::repeat_n(0x5a, n));
                 v.extend(tail);
             }
+            Damage::RemoveBody { from, to } => {
+                v.drain(from..to);
+            }
         }
         Some(v)
     }
@@ -198,6 +209,7 @@ impl Damage {
             Damage::Truncate { len } => json!({"d":"truncate","len":len}),
             Damage::ExtendEnd { n } => json!({"d":"extend_end","n":n}),
             Damage::ExtendMiddle { pos, n } => json!({"d":"extend_middle","pos":pos,"n":n}),
+            Damage::RemoveBody { from, to } => json!({"d":"remove_body","from":from,"to":to}),
         }
     }
     fn from_json(v: &Value) -> Damage {
@@ -207,6 +219,7 @@ impl Damage {
             "subst" => Damage::Subst { pos: u("pos"), how: u("how") as u8 },
             "truncate" => Damage::Truncate { len: u("len") },
             "extend_end" => Damage::ExtendEnd { n: u("n") },
+            "remove_body" => Damage::RemoveBody { from: u("from"), to: u("to") },
             _ => Damage::ExtendMiddle { pos: u("pos"), n: u("n") },
         }
     }
@@ -225,6 +238,14 @@ fn damages_for(file: &[u8]) -> Vec<Damage> {
     }
     for len in 0..file.len() {
         v.push(Damage::Truncate { len });
+    }
+    // the body shortened under an intact footer: everything, every prefix, every suffix
+    if body > 0 {
+        v.push(Damage::RemoveBody { from: 0, to: body });
+        for k in 1..body {
+            v.push(Damage::RemoveBody { from: 0, to: k });
+            v.push(Damage::RemoveBody { from: k, to: body });
+        }
     }
     for n in 1..=9 {
         v.push(Damage::ExtendEnd { n });
@@ -312,10 +333,24 @@ fn check_versions(index: &Index, sim: &SimDirectory, path: &str, orig: &[u8], va
         file.extend_from_slice(&1337u32.to_le_bytes());
         sim.overwrite_file(path, file);
         let r = catch_unwind(AssertUnwindSafe(|| index.directory().open_read(Path::new(path))));
+        // the file-handle entry point refuses exactly like open_read
+        let rh = catch_unwind(AssertUnwindSafe(|| {
+            use tantivy::directory::Directory;
+            index.directory().get_file_handle(Path::new(path)).map(|_| ())
+        }));
         let opened = catch_unwind(AssertUnwindSafe(|| Index::open(sim.clone()).and_then(|i| i.reader().map(|_| ()))));
         sim.overwrite_file(path, orig.to_vec());
         let supported = v >= oldest && v <= cur;
         let case = json!({"kind":"version","variant":variant,"file_suffix":suffix_of(path),"version":v});
+        if let Ok(Ok(())) = rh {
+            if !supported {
+                out.push(Violation::new(
+                    "unsupported_version_accepted",
+                    format!("index {variant} file {path}: footer version {v} (supported {oldest}..={cur}) was handed out by get_file_handle instead of refused"),
+                    case.clone(),
+                ));
+            }
+        }
         match r {
             Err(_) => out.push(Violation::new("version_panic", format!("open_read of {path} with footer version {v} panicked"), case.clone())),
             Ok(Ok(_)) if !supported => out.push(Violation::new(
@@ -485,6 +520,7 @@ pub fn run(ctx: &Ctx) -> Report {
                 Damage::BitFlip { .. } => st.count("bitflips"),
                 Damage::Subst { .. } => st.count("substitutions"),
                 Damage::Truncate { .. } => st.count("truncations"),
+                Damage::RemoveBody { .. } => st.count("body_removals"),
                 _ => st.count("extensions"),
             }
             if let Some(v) = check_damage(&index, &sim, f, &orig, &d, *variant) {
@@ -505,7 +541,7 @@ pub fn run(ctx: &Ctx) -> Report {
     rep.set("index_variants", variants.len() as u64);
     rep.set("segment_files_damaged", work.len() as u64);
     rep.set("component_kinds", json!(kinds_seen));
-    rep.set("rule", "(a) every sequence of <= 3 (thorough 4) writes of sizes {0,1,7,8191,8192,8193} x flush between x underlying writer accepting all / 1 byte / half; (b) every bit flip and 3 substitutions of every body byte, every truncation length, extensions by 1..9 bytes at 4 positions, for every segment file of each index of the family; (c) 7 footer versions per file. Non-trivial: short-write pattern with data / any damage (distinct by file and damage)");
+    rep.set("rule", "(a) every sequence of <= 3 (thorough 4) writes of sizes {0,1,7,8191,8192,8193} x flush between x underlying writer accepting all / 1 byte / half; (b) every bit flip and 3 substitutions of every body byte, every truncation length, the body shortened under an intact footer (everything, every prefix, every suffix), extensions by 1..9 bytes at 4 positions, for every segment file of each index of the family; (c) 7 footer versions per file, through open_read and get_file_handle; written content is read back through both. Non-trivial: short-write pattern with data / any damage (distinct by file and damage)");
     for k in ["bitflips", "truncations", "extensions", "version_cases", "short_write_pattern"] {
         if st.counters.get(k).copied().unwrap_or(0) == 0 {
             rep.machinery_errors.push(format!("vacuous: no {k} case was run"));
